@@ -46,11 +46,11 @@ Definition lbl (s : string) : list Z := of_string s.
 Arguments lbl s%string.
 Definition counter_label (pc : counter_pc) : list Z :=
   match pc with
-  | cAddInt _ => lbl "AddUint64 c.valInt"
-  | cLoad _ => lbl "LoadUint64 c.valBits"
-  | cCas _ _ => lbl "CompareAndSwapUint64 c.valBits"
-  | cWBits => lbl "LoadUint64 c.valBits"
-  | cWInt _ => lbl "LoadUint64 c.valInt"
+  | cAddInt _ => lbl "AddUint64 valInt"
+  | cLoad _ => lbl "LoadUint64 valBits"
+  | cCas _ _ => lbl "CompareAndSwapUint64 valBits"
+  | cWBits => lbl "LoadUint64 valBits"
+  | cWInt _ => lbl "LoadUint64 valInt"
   end.
 
 Definition counter_machine : machine :=
@@ -83,10 +83,10 @@ Definition gauge_step (s : f64) (pc : gauge_pc) : option (f64 * (gauge_pc + gaug
 
 Definition gauge_label (pc : gauge_pc) : list Z :=
   match pc with
-  | gStore _ => lbl "StoreUint64 g.valBits"
-  | gLoad _ => lbl "LoadUint64 g.valBits"
-  | gCas _ _ => lbl "CompareAndSwapUint64 g.valBits"
-  | gRead => lbl "LoadUint64 g.valBits"
+  | gStore _ => lbl "StoreUint64 valBits"
+  | gLoad _ => lbl "LoadUint64 valBits"
+  | gCas _ _ => lbl "CompareAndSwapUint64 valBits"
+  | gRead => lbl "LoadUint64 valBits"
   end.
 
 Definition gauge_machine : machine :=
